@@ -149,6 +149,86 @@ fn case_sized<F: Family>(input: &Input, ctx: &mut Ctx) -> CaseResult {
     }
 }
 
+/// Histories of encoder invocations on one thread: complete async encodes under random sink
+/// scripts, blocking encodes, and async encodes that are abandoned (future dropped) while the
+/// sink is Pending after a partial write. Every completed invocation must emit exactly encode().
+fn history<F: Family>(input: &Input, ctx: &mut Ctx) -> CaseResult {
+    let mut t = Tape::new(input.tape());
+    let n = 2 + t.pick(5);
+    let mut abandoned = 0;
+    let mut after_abandon = false;
+    for i in 0..n {
+        let cfg = if t.chance(1, 8) { crate::gen::GenCfg::MEDIUM } else { crate::gen::GenCfg::SMALL };
+        // PUBLISH more often: it is the hot path of real users
+        let p = if t.flag() { F::gen_of_type(&mut t, &cfg, 2) } else { F::gen(&mut t, &cfg) }.map_err(|e| Violation::new(e.0))?;
+        let enc = match F::encode(&p) {
+            Ok(b) => b.as_ref().to_vec(),
+            Err(e) => viol!("encode of a valid packet failed: {:?}", e),
+        };
+        let op = if i + 1 == n { 0 } else { t.pick(3) };
+        match op {
+            2 => {
+                // abandon: accept k bytes (possibly 0), then Pending for as long as we poll
+                let k = t.pick(enc.len() + 1);
+                let mut steps: Vec<WStep> = Vec::new();
+                if k > 0 {
+                    steps.push(WStep::Accept(k));
+                }
+                for _ in 0..8 {
+                    steps.push(WStep::Pending);
+                }
+                let mut w = ScriptedWriter::new(&steps, enc.len());
+                let polls = 1 + t.pick(3);
+                let r = sio::poll_n(F::encode_async(&p, &mut w), polls);
+                if let Some(Err(e)) = &r {
+                    viol!("encode_async failed on a sink that is merely not ready: {:?}", e);
+                }
+                ensure!(enc.starts_with(&w.out), "abandoned encode_async wrote {} which is not a prefix of {}", hex_short(&w.out, 32), hex_short(&enc, 32));
+                if r.is_none() {
+                    abandoned += 1;
+                    after_abandon = true;
+                    ctx.label("abandoned-while-pending");
+                }
+            }
+            1 => {
+                // blocking encoder in between
+                match F::encode(&p) {
+                    Ok(b) => ensure!(b.as_ref() == &enc[..], "blocking encoder emitted different bytes on a repeated invocation (operation {} of the history)", i + 1),
+                    Err(e) => viol!("repeated blocking encode failed: {:?}", e),
+                }
+            }
+            _ => {
+                let steps = gen_wsteps(&mut t, enc.len());
+                match async_into::<F>(&p, &steps, false, enc.len()) {
+                    Ok((out, _)) => {
+                        ensure!(
+                            out == enc,
+                            "operation {} of an encoder history ({} earlier invocations were abandoned while the sink was Pending): encode_async emitted {} ({} bytes) instead of {} ({} bytes); packet {}",
+                            i + 1,
+                            abandoned,
+                            hex_short(&out, 40),
+                            out.len(),
+                            hex_short(&enc, 40),
+                            enc.len(),
+                            fam::render(&p)
+                        );
+                        if after_abandon {
+                            ctx.label("complete-after-abandon");
+                        }
+                    }
+                    Err(e) => viol!("encode_async failed in a history: {}", e),
+                }
+            }
+        }
+    }
+    if abandoned > 0 && ctx.nontrivial(fnv(format!("{:?}", input.tape()).as_bytes())) {
+        ctx.sample(|| format!("{} history of {} encoder invocations, {} abandoned while the sink was Pending", F::FAM.name(), n, abandoned));
+    }
+    Ok(())
+}
+
+pub const SUB_H3: Sub = Sub { name: "c09.history.v3", f: history::<V3> };
+pub const SUB_H5: Sub = Sub { name: "c09.history.v5", f: history::<V5> };
 pub const SUB_S3: Sub = Sub { name: "c09.sized.v3", f: case_sized::<V3> };
 pub const SUB_S5: Sub = Sub { name: "c09.sized.v5", f: case_sized::<V5> };
 pub const SUB_V3: Sub = Sub { name: "c09.entry.v3", f: case::<V3> };
@@ -157,7 +237,7 @@ pub const SUB_T3: Sub = Sub { name: "c09.typed.v3", f: case_typed::<V3> };
 pub const SUB_T5: Sub = Sub { name: "c09.typed.v5", f: case_typed::<V5> };
 
 pub fn subs() -> Vec<Sub> {
-    vec![SUB_V3, SUB_V5, SUB_T3, SUB_T5, SUB_S3, SUB_S5]
+    vec![SUB_V3, SUB_V5, SUB_T3, SUB_T5, SUB_S3, SUB_S5, SUB_H3, SUB_H5]
 }
 
 pub fn run(env: &mut Env) -> RunResult {
@@ -166,6 +246,10 @@ pub fn run(env: &mut Env) -> RunResult {
     env.run_tapes(SUB_V5, n * 2, 240)?;
     env.run_tapes(SUB_T3, n / 2, 140)?;
     env.run_tapes(SUB_T5, n, 240)?;
+    env.run_tapes(SUB_H3, n / 2, 400)?;
+    env.run_tapes(SUB_H5, n / 2, 500)?;
+    env.require("c09.history.v3", "complete-after-abandon");
+    env.require("c09.history.v5", "complete-after-abandon");
     let s3 = crate::sized::inputs(crate::model::Fam::V3, env.thorough());
     let n3 = s3.len() as u64;
     env.run_enum(SUB_S3, n3, false, move |i| s3[i as usize].clone())?;
